@@ -127,14 +127,14 @@ def work(chunk):
 
 def items(tier):
     out = []
-    dues = ((-1, -1, -1), (3, 5, 2), (4, 4, 4))
+    dues = ((-1, -1, -1), (3, 5, 2), (4, 4, 4), (2, 2, 5), (6, 3, 3))
     kinds = ("FS",) if tier == "quick" else ("FS", "SS", "FF")
     flows = list(F.flows(3, kinds, (1, 2)))
     if tier == "quick":
         flows = flows[::2]
     for fl in flows:
         for lay in ("POOL1", "POOL2"):
-            for due in (dues if tier == "thorough" else dues[1:2]):
+            for due in (dues if tier == "thorough" else (dues[1], dues[3])):
                 sp = F.with_teams(fl, lay)
                 sp = dict(sp, tasks=[dict(t, due=due[i]) for i, t in enumerate(sp["tasks"])])
                 for dflag, rev in itertools.product((False, True), repeat=2):
@@ -143,6 +143,19 @@ def items(tier):
     for sp in c08.base_models()[3:]:
         for dflag, rev in itertools.product((False, True), repeat=2):
             out.append((sp, {"rule": "TSLACK", "due": dflag, "rev": rev, "absence": [], "max_time": F.seq_bound(sp) + 12}))
+    # conveyor links declared on one side only (constructor keyword), and with both sides
+    for sp0 in F.fac_specs("quick"):
+        if sp0["label"] in ("fac:2:per-task:two-conveyor:plain:both", "fac:2:shared:two-conveyor:two:both"):
+            for wiring in ("one-sided", None):
+                sp = dict(sp0, workplaces=[dict(wp, wire_inputs=wiring) for wp in sp0["workplaces"]])
+                for dflag, rev in itertools.product((False, True), repeat=2):
+                    out.append((sp, {"rule": "TSLACK", "due": dflag, "rev": rev, "absence": [], "max_time": F.seq_bound(sp) + 12}))
+    # four tails, two of them sharing a due time below the maximum
+    fl4 = {"tasks": [{"name": F.tname(i), "work": float(w), "due": d} for i, (w, d) in enumerate(((1, 2), (2, 2), (1, 3), (2, 6)))], "links": []}
+    for lay in ("POOL2",):
+        sp = F.with_teams(fl4, lay)
+        for rev in (False, True):
+            out.append((sp, {"rule": "TSLACK", "due": True, "rev": rev, "absence": [], "max_time": F.seq_bound(sp) + 12}))
     return out
 
 
